@@ -143,6 +143,13 @@ func applyTarget(target []byte, st *state.State, ca cache.Memory, ctx context.Co
 
 	switch string(target) {
 	case "_":
+		topOk, err := st.Top()
+		if err != nil {
+			return sym, idx, err
+		}
+		if topOk {
+			return sym, idx, fmt.Errorf("cannot move up from entry point node '%s'", sym)
+		}
 		sym, err = st.Up()
 		if err != nil {
 			return sym, idx, err
